@@ -2,6 +2,8 @@ package checks
 
 import (
 	"fmt"
+	"io"
+	"runtime"
 	"strings"
 	"time"
 
@@ -89,6 +91,37 @@ func c20TailPrograms(depth int) []string {
 		out = append(out, "def f: def g: def h: if . < N then . + 1 | f else . end; "+fmt.Sprintf(ctx, "h")+"; g; 0 | f")
 	}
 	return out
+}
+
+// c20SamplingReader is a pipe that samples the live heap (after a collection) every few reads.
+type c20SamplingReader struct {
+	data       []byte
+	pos, chunk int
+	reads      int
+	base, peak int64
+}
+
+func (r *c20SamplingReader) Read(b []byte) (int, error) {
+	if r.reads%16 == 0 {
+		runtime.GC()
+		var ms runtime.MemStats
+		runtime.ReadMemStats(&ms)
+		h := int64(ms.HeapAlloc)
+		if r.reads == 0 {
+			r.base = h
+		}
+		if h > r.peak {
+			r.peak = h
+		}
+	}
+	r.reads++
+	if r.pos >= len(r.data) {
+		return 0, io.EOF
+	}
+	n := min(r.chunk, len(b), len(r.data)-r.pos)
+	copy(b, r.data[r.pos:r.pos+n])
+	r.pos += n
+	return n, nil
 }
 
 type c20Peak struct {
@@ -278,6 +311,36 @@ func c20Run(c *engine.Ctx) {
 		}
 	}
 	c.Sample(map[string]any{"form": "0 | until(. >= N; . + 1)", "n": n, "8n": 8 * n, "observed": "peak of (forks, stack, scopes, paths, values, offset) read at every instruction"})
+
+	// the command reading its input through a pipe: what it keeps of the bytes already consumed does not grow with
+	// the length of the stream (live heap sampled after a collection at read calls, for streams of n and 4n values)
+	c.Sub("command-inputs")
+	if c.MineIdx(5) {
+		for _, shape := range []struct{ unit, sep string }{{`{"a":1}`, " "}, {`{"a":1}`, "\n"}, {`[1,2]`, "\t"}, {`"s"`, "\r\n"}, {`7`, " "}} {
+			for _, args := range [][]string{{"-n", "reduce inputs as $x (0; . + 1)"}, {"-c", "--stream", "-n", "reduce inputs as $x (0; . + 1)"}, {"-n", "last(inputs)"}, {"-c", "select(false)"}} {
+				key := fmt.Sprintf("%q sep %q %v", shape.unit, shape.sep, args)
+				if !c.Guard(key) {
+					continue
+				}
+				c.Eval()
+				live := func(n int) (int64, int) {
+					text := strings.Repeat(shape.unit+shape.sep, n)
+					r := &c20SamplingReader{data: []byte(text), chunk: 4096}
+					RunCLI(args, r)
+					return r.peak - r.base, len(text)
+				}
+				l1, b1 := live(20000)
+				l2, b2 := live(80000)
+				c.Unguard()
+				c.DistinctN(1)
+				c.Outcome("command-inputs: bounded")
+				if grow := l2 - l1; grow > int64(b2-b1)/2 {
+					c.Violation(key, "state-grows", map[string]any{"why": fmt.Sprintf("live heap while reading grows with the stream: +%d bytes for %d more bytes of input (peaks %d and %d over the baseline)", grow, b2-b1, l1, l2)})
+				}
+			}
+		}
+	}
+	c.Sample(map[string]any{"command": "gojq -n 'reduce inputs as $x (0; . + 1)' fed through a pipe with 20000 and 80000 values on one line or on lines", "oracle": "the live heap sampled after a collection at read calls grows by less than half of the extra input"})
 
 	c.Sub("tail-recursion")
 	depth := 3
